@@ -1324,4 +1324,126 @@ theorem choice_toks_right {s : Side} {H : Hyps} {L : Lex} (hs : s.Ok H L) {d : N
         · rw [htr]
           simp [Sh.wrap1]
 
+/-! ### the cases of `okPair` -/
+
+section cases
+variable {s₁ s₂ : Side} {H : Hyps} {L : Lex} {d : Nat} {R : Rel}
+
+/-- conclusion of every case: the result of `a` with fuel `n+1` is eventually the result of `b` -/
+def Goal (s₁ s₂ : Side) (L : Lex) (n a b : Nat) : Prop :=
+  ∀ c p, parse s₁.g L (n+1) a c p ≠ .fuel →
+    ∃ m₀, ∀ m, m₀ ≤ m → parse s₂.g L m b c p = parse s₁.g L (n+1) a c p
+
+theorem shift_ev {g : Graph} {L : Lex} {b : Nat} {c : Bool} {p : Nat} {r : Res} {m₀ : Nat}
+    (h : ∀ m, m₀ ≤ m → parse g L (m+1) b c p = r) : ∃ m₁, ∀ m, m₁ ≤ m → parse g L m b c p = r :=
+  ⟨m₀ + 1, fun m hm => by
+    obtain ⟨m', rfl⟩ : ∃ m', m = m' + 1 := ⟨m - 1, by omega⟩
+    exact h m' (by omega)⟩
+
+theorem left_net (hs₁ : s₁.Ok H L) {n a : Nat} {c : Bool} {p : Nat} {na : Node} {pre : Res}
+    (h : parse s₁.g L (n+1) a c p = finish na pre) : ∀ w q, finish na pre = .ok w q → NET w := by
+  intro w q hw
+  rw [← h] at hw
+  exact (hs₁.shape hw).2
+
+theorem case_seq (hs₁ : s₁.Ok H L) (hs₂ : s₂.Ok H L) {n a b : Nat} (hP : P s₁ s₂ L R n) {na nb : Node}
+    (ha : s₁.g.get a = some na) (hb : s₂.g.get b = some nb) (hta : transparentSeq na = true)
+    (htb : transparentSeq nb = true) (hal : align s₁ s₂ d R alignFuel na.kids nb.kids = true) :
+    Goal s₁ s₂ L n a b := by
+  intro c p hne
+  have hpa := parse_seq (L := L) (n := n) (c := c) (p := p) ha hta
+  have hloop : seqLoop (fun e q => parse s₁.g L n e c q) na.kids p .E ≠ .fuel := by
+    intro h; rw [hpa, h] at hne; simp [seqRes, finish] at hne
+  obtain ⟨m₀, hm₀⟩ := align_sound hs₁ hs₂ hP c alignFuel _ _ hal p .E hloop
+  apply shift_ev (m₀ := m₀)
+  intro m hm
+  rw [parse_seq hb htb, hm₀ m hm, hpa]
+  exact finish_congr (by rw [(transparent_iff hta).2.2, (transparent_iff htb).2.2]) (left_net hs₁ hpa)
+
+theorem step1_inv {f : Nat → Nat → Res} {y p : Nat} {ρ : Res} (h : step1 f y p .E = ρ) :
+    (∀ p2, ρ = .ok .T p2 → f y p = .ok .T p2) ∧ (ρ = .fail → f y p = .fail) ∧ (ρ = .bad → f y p = .bad) := by
+  simp only [step1] at h
+  cases hf : f y p with
+  | ok v p1 =>
+    rw [hf] at h
+    subst h
+    refine ⟨fun p2 h2 => ?_, fun h2 => by simp at h2, fun h2 => by simp at h2⟩
+    simp only [Res.ok.injEq] at h2
+    obtain ⟨hv, rfl⟩ := h2
+    cases v <;> simp [Sh.add] at hv ⊢
+  | fail => rw [hf] at h; subst h; exact ⟨fun _ h2 => by simp at h2, fun _ => rfl, fun h2 => by simp at h2⟩
+  | bad => rw [hf] at h; subst h; exact ⟨fun _ h2 => by simp at h2, fun h2 => by simp at h2, fun _ => rfl⟩
+  | fuel => rw [hf] at h; subst h; exact ⟨fun _ h2 => by simp at h2, fun h2 => by simp at h2, fun h2 => by simp at h2⟩
+
+theorem case_sepA (hs₁ : s₁.Ok H L) (hs₂ : s₂.Ok H L) {n a b : Nat} (hP : P s₁ s₂ L R n) {na : Node}
+    (ha : s₁.g.get a = some na) (hta : transparentSeq na = true) {x st : Nat} (hk : na.kids = [x, st])
+    (hsep : sepA s₁ s₂ d R x st b = true) : Goal s₁ s₂ L n a b := by
+  intro c p hne
+  obtain ⟨s, x', z, t, hst, hpl, hx, hX, hS, r1, r2, r3⟩ := sepA_unfold hsep
+  have hsupa := (transparent_iff hta).2.2
+  have hpa := parse_seq (L := L) (n := n) (c := c) (p := p) ha hta
+  rw [hk, seqLoop_cons2] at hpa
+  have hstep2 : step2 (fun e q => parse s₁.g L n e c q) x st p .E ≠ .fuel := by
+    intro h; rw [hpa, h] at hne; simp [Res.bind, seqRes, finish] at hne
+  obtain ⟨m₀, hm₀⟩ := sepA_step hs₁ hs₂ hst hpl hx hX hS (inR_tr hs₁ hs₂ hP r1) (inR_tr hs₁ hs₂ hP r2)
+    (inR_tr hs₁ hs₂ hP r3) c p .E hstep2
+  refine ⟨m₀, fun m hm => ?_⟩
+  obtain ⟨i1, i2, i3⟩ := step1_inv (hm₀ m hm)
+  -- the possible values of the two-element step
+  simp only [step2] at hpa i1 i2 i3 hstep2
+  cases hrx : parse s₁.g L n x c p with
+  | ok v p1 =>
+    have hv := onlyT_val hs₁ hx hrx
+    subst hv
+    rw [hrx] at hpa i1 i2 i3
+    simp only at hpa i1 i2 i3
+    cases hrst : parse s₁.g L n st c p1 with
+    | ok w p2 =>
+      have hT : (Sh.E.add Sh.T).add w = .T := by cases w <;> rfl
+      rw [hrst] at hpa i1
+      simp only [Res.bind, seqLoop, seqRes, hT] at hpa i1
+      rw [hpa, i1 p2 rfl]
+      simp [finish, hsupa]
+    | fail =>
+      rw [hrst] at hpa i2
+      rw [hpa, i2 rfl]; simp [Res.bind, seqRes, finish]
+    | bad =>
+      rw [hrst] at hpa i3
+      rw [hpa, i3 rfl]; simp [Res.bind, seqRes, finish]
+    | fuel => exact absurd (by simp [hrx, hrst]) hstep2
+  | fail =>
+    rw [hrx] at hpa i2
+    rw [hpa, i2 rfl]; simp [Res.bind, seqRes, finish]
+  | bad =>
+    rw [hrx] at hpa i3
+    rw [hpa, i3 rfl]; simp [Res.bind, seqRes, finish]
+  | fuel => exact absurd (by simp [hrx]) hstep2
+
+theorem case_sepB (hs₁ : s₁.Ok H L) (hs₂ : s₂.Ok H L) {n a b : Nat} (hP : P s₁ s₂ L R n) {nb : Node}
+    (hb : s₂.g.get b = some nb) (htb : transparentSeq nb = true) {y st : Nat} (hk : nb.kids = [y, st])
+    (hsh : sub (shOf s₁.sh a) [.N, .T] = true) (hsep : sepB s₁ s₂ d R a y st = true) :
+    Goal s₁ s₂ L n a b := by
+  intro c p hne
+  obtain ⟨z, t, s, y', hpl, hst, hZ, hT, r1, r2, r3⟩ := sepB_unfold hsep
+  have hsupb := (transparent_iff htb).2.2
+  have hstep1 : step1 (fun e q => parse s₁.g L (n+1) e c q) a p .E ≠ .fuel := by
+    simp only [step1]
+    cases hr : parse s₁.g L (n+1) a c p <;> simp_all
+  obtain ⟨m₀, hm₀⟩ := sepB_step (N := n+1) hs₁ hpl hst hZ hT (inR_tr hs₁ hs₂ hP r1) (inR_tr hs₁ hs₂ hP r2)
+    (inR_tr hs₁ hs₂ hP r3) c p .E hstep1
+  apply shift_ev (m₀ := m₀)
+  intro m hm
+  rw [parse_seq hb htb, hk, seqLoop_cons2, hm₀ m hm]
+  simp only [step1]
+  cases hr : parse s₁.g L (n+1) a c p with
+  | ok v p1 =>
+    have := sub_mem hsh (hs₁.shape hr).1
+    simp only [List.mem_cons, List.mem_nil_iff, or_false] at this
+    rcases this with hv | hv <;> subst hv <;> simp [Res.bind, seqLoop, Sh.add, seqRes, finish, hsupb]
+  | fail => simp [Res.bind, seqRes, finish]
+  | bad => simp [Res.bind, seqRes, finish]
+  | fuel => exact absurd hr hne
+
+end cases
+
 end Rec
